@@ -1,0 +1,75 @@
+//! Verification seam H11 (compiled only with `--cfg excsn_fibre_verif`, never under loom).
+//!
+//! The dispatcher's `papaya::HashMap` behind a thin wrapper: `pin()` hands out a reference whose
+//! `get` / `insert` / `get_or_insert_with` / `remove` / `iter` / `len` call the scheduling-point
+//! callback first and then the papaya operation of the same name; everything else derefs to
+//! papaya's own reference type. A harness scheduler thereby sees every map operation of the topic
+//! channel as a scheduling point - including operations that a later change adds.
+#![cfg(feature = "topic")]
+
+use papaya::{Equivalent, HashMapRef, LocalGuard};
+use std::collections::hash_map::RandomState;
+use std::hash::Hash;
+use std::ops::Deref;
+
+pub(crate) struct HashMap<K, V>(papaya::HashMap<K, V>);
+
+pub(crate) struct Pinned<'a, K, V>(HashMapRef<'a, K, V, RandomState, LocalGuard<'a>>);
+
+impl<K: Hash + Eq, V> HashMap<K, V> {
+  pub(crate) fn new() -> Self {
+    Self(papaya::HashMap::new())
+  }
+
+  pub(crate) fn pin(&self) -> Pinned<'_, K, V> {
+    Pinned(self.0.pin())
+  }
+}
+
+impl<'a, K: Hash + Eq, V> Pinned<'a, K, V> {
+  pub(crate) fn get<Q>(&self, key: &Q) -> Option<&V>
+  where
+    Q: Equivalent<K> + Hash + ?Sized,
+  {
+    crate::sync::verif_hook::point();
+    self.0.get(key)
+  }
+
+  pub(crate) fn insert(&self, key: K, value: V) -> Option<&V> {
+    crate::sync::verif_hook::point();
+    self.0.insert(key, value)
+  }
+
+  pub(crate) fn get_or_insert_with<F>(&self, key: K, f: F) -> &V
+  where
+    F: FnOnce() -> V,
+  {
+    crate::sync::verif_hook::point();
+    self.0.get_or_insert_with(key, f)
+  }
+
+  pub(crate) fn remove<Q>(&self, key: &Q) -> Option<&V>
+  where
+    Q: Equivalent<K> + Hash + ?Sized,
+  {
+    crate::sync::verif_hook::point();
+    self.0.remove(key)
+  }
+
+  pub(crate) fn iter(&self) -> papaya::Iter<'_, K, V, LocalGuard<'a>> {
+    crate::sync::verif_hook::point();
+    self.0.iter()
+  }
+
+  pub(crate) fn len(&self) -> usize {
+    crate::sync::verif_hook::point();
+    self.0.len()
+  }
+}
+
+impl<'a, K, V> Deref for Pinned<'a, K, V> {
+  type Target = HashMapRef<'a, K, V, RandomState, LocalGuard<'a>>;
+  fn deref(&self) -> &Self::Target {
+    &self.0
+  }
+}
